@@ -87,6 +87,35 @@ Section D.
     destruct (emit_feats (ns_feats s)) as [o1 fs]. cbn [take_fin snd app]. exists o1. reflexivity.
   Qed.
 
+  (* C11: run-Finished comes last, after everything else has been forwarded *)
+  Theorem finished_comes_last es :
+    contract (map snd es) = true ->
+    exists X m, concat (nrun es) = X ++ [(m, EvFinished)] /\ existsb is_finished (map snd X) = false.
+  Proof.
+    intros C. pose proof (contract_lossless es C) as PX.
+    assert (CP : contract_prefix (map snd es) = true).
+    { unfold contract in C. unfold contract_prefix. destruct (crun false cinit (map snd es)); [reflexivity|discriminate]. }
+    unfold contract in C. destruct (crun false cinit (map snd es)) as [c''|] eqn:CR; [|discriminate].
+    destruct (contract_ends_with_finished _ _ _ CR eq_refl C) as (l0' & EL & NF0).
+    apply map_eq_app in EL as (l0 & lf & -> & <- & ELF).
+    destruct lf as [|[m ef] [|? ?]]; try discriminate ELF. cbn in ELF. inversion ELF; subst ef. clear ELF.
+    assert (NFl : existsb (fun e => is_finished (snd e)) l0 = false).
+    { clear -NF0. induction l0 as [|e l IH]; [reflexivity|]. cbn [map existsb] in *. apply orb_false_iff in NF0 as [A B].
+      rewrite A, (IH B). reflexivity. }
+    pose proof (contract_implies_accepts _ CP) as AR.
+    assert (AR0 : accepts_run ninit l0 = true).
+    { clear -AR. revert AR. generalize ninit. induction l0 as [|e l IH]; intros s A; [reflexivity|].
+      cbn [app accepts_run] in *. apply andb_prop in A as [A1 A2]. rewrite A1. exact (IH _ A2). }
+    destruct (not_emitted_without_finished l0 ninit eq_refl eq_refl AR0 eq_refl NFl) as (_ & _ & EM).
+    destruct (nhandle_finished_out (nfinal ninit l0) m EM) as (o1 & OUT).
+    exists (concat (nrun l0) ++ o1), m.
+    assert (XE : concat (nrun (l0 ++ [(m, EvFinished)])) = (concat (nrun l0) ++ o1) ++ [(m, EvFinished)]).
+    { unfold nrun. rewrite nrun_from_app. cbn [nrun_from]. destruct (nhandle (nfinal ninit l0) (m, EvFinished)) as [s' o] eqn:NH.
+      cbn [snd] in OUT. subst o. rewrite concat_app. cbn [concat]. rewrite app_nil_r, app_assoc. reflexivity. }
+    split; [exact XE|]. rewrite XE in PX. apply Permutation_app_inv_r in PX.
+    rewrite (existsb_perm _ _ _ (Permutation_map snd PX)). exact NF0.
+  Qed.
+
   (* C01 for the default pipeline shape on every complete contract-abiding stream *)
   Theorem verdict_default_pipeline q es :
     contract (map snd es) = true ->
